@@ -6,6 +6,8 @@ package masswallet
 import (
 	"github.com/massnetorg/mass-core/massutil"
 	"github.com/massnetorg/mass-core/wire"
+	mwdb "massnet.org/mass-wallet/masswallet/db"
+	"massnet.org/mass-wallet/masswallet/keystore"
 	"massnet.org/mass-wallet/masswallet/txmgr"
 )
 
@@ -85,3 +87,10 @@ func verifImportStop(synced, stop uint64) uint64 {
 	}
 	return stop
 }
+
+// VerifKeystoreManager returns the keystore manager (public-passphrase change etc. are
+// not reachable through WalletManager).
+func (w *WalletManager) VerifKeystoreManager() *keystore.KeystoreManager { return w.ksmgr }
+
+// VerifDB returns the wallet database handle the manager was built on.
+func (w *WalletManager) VerifDB() mwdb.DB { return w.db }
